@@ -8,7 +8,7 @@ import proto, gen, implutil
 THEOREMS = ['C18_limit_rule', 'C18_limit_sublist', 'C18_limit_membership', 'C18_limit_outside', 'C18_limit_reset', 'C18_limit_signal', 'C18_split_drop', 'C18_flatten', 'C18_flatten_labels']
 RULE = ("cycle tables of generated signals, both centrings x start/stop in {None, exactly 0, random, exactly on a cycle boundary (last/next side extremum / fs), windows containing no cycle} x "
         "reset_indices x row labels 0..n-1 / repeated (flattened channels) / offset; limit_signal on the sample grid with the same limits, time axis starting at 0 or before 0; split_samples_df / drop_samples_df on the same tables; flatten_dfs on 1-D and 2-D lists of tables "
-        "with labels (and mismatching label counts); judge: Lean specifications limitSpec / limitSignalSpec, column partition, order and labels; "
+        "with labels (and mismatching label counts; default and custom column_name); judge: Lean specifications limitSpec / limitSignalSpec, column partition, order and labels; "
         "distinct = distinct (table, limits, flags); non-trivial = a strict non-empty subset of the rows / samples is kept")
 ASSUMPTIONS = ["the window limits are shipped as the equivalent sample thresholds (smallest sample with s/fs >= start, largest with s/fs <= stop, computed in float64 as the implementation compares); the model is about the selection and the shift",
                "fs and limits are chosen so that start*fs is exact in float64 for the boundary cases (fs a power of two or limits on the sample grid with exact quotients)"]
@@ -192,15 +192,17 @@ def evaluate(ctx, cases):
                 lv = labels
                 if not c['bad_labels']:      # labels as a (nested) list, a C-ordered ndarray or a FORTRAN-ordered ndarray (a transposed label table)
                     lv = [labels, np.array(labels), np.asfortranarray(np.array(labels))][c['seed'] % 3]
-                res = implutil.quiet(flatten_dfs, tabs, lv); err = None
+                col = [None, 'Label', 'chan', 'Label'][(c['seed'] // 3) % 4]      # the rarely used column_name option (None: the default, 'Label')
+                res = implutil.quiet(flatten_dfs, tabs, lv, **({} if col is None else {'column_name': col})); err = None
+                col = col or 'Label'
             except Exception as e:
                 res, err = None, type(e).__name__
             if c['bad_labels']:
                 judge_ok = err == 'ValueError'
             else:
                 exp = pd.concat([t.assign(Label=l) for t, l in zip(copies, lab_flat)], axis=0) if flat else None
-                judge_ok = err is None and len(res) == len(exp) and list(res['x'].values) == list(exp['x'].values) and \
-                    list(res['Label'].values) == list(exp['Label'].values) and list(res['y'].values) == list(exp['y'].values)
+                judge_ok = err is None and len(res) == len(exp) and list(res['x'].values) == list(exp['x'].values) and col in res.columns and \
+                    (col == 'Label' or 'Label' not in res.columns) and list(res[col].values) == list(exp['Label'].values) and list(res['y'].values) == list(exp['y'].values)
             if not judge_ok: info['judge'] = 'flatten_dfs: order / labels / error differ (err=%s)' % err
             nt = len(flat) >= 2
         ctx.hist('kind', c['kind'])
